@@ -94,6 +94,13 @@ fn main() {
         std::fs::write(&p, &it.dump).unwrap();
         valid.push((p, it.dump));
     }
+    // dumps with every stream type (both a MemoryList and a Memory64List among them), one of them big-endian
+    for (n, flavour, big) in [("rich-linux.dmp", "linux-amd64", false), ("rich-mac-be.dmp", "mac-arm64", true), ("rich-win.dmp", "windows-x86", false)] {
+        let bytes = vharness::rich::template_with_exception(flavour, big, 3);
+        let p = work.join(n);
+        std::fs::write(&p, &bytes).unwrap();
+        valid.push((p, bytes));
+    }
     // a thread whose stack size is not a multiple of the pointer width, and a big-endian dump
     for (n, spec) in [("oddstack.dmp", DumpSpec { threads: vec![vharness::dumpgen::ThreadSpec { id: 7, ctx_ok: true, name: Some("odd".into()), ip: 0x400100, sp: 0x10000, stack_base: 0x10000, stack: vec![0xabu8; 0x1002] }],
                                                     modules: vec![vharness::dumpgen::ModuleSpec { base: 0x400000, size: 0x1000, name: "m1".into() }], ..DumpSpec::default() }),
